@@ -347,6 +347,11 @@ def run(tier):
 def lookup_default(prog, rep):
     key = BIDI + "bidi_class_cp"
     b = prog.body(key)
+    if b is None and prog.body(BIDI + "bidi_class") is not None:
+        # no separate code-point helper: the character entry point searches the table itself and is checked in
+        # full below
+        key = BIDI + "bidi_class"
+        b = prog.body(key)
     if b is None:
         rep.ob("lookup", key, False, "not found")
         return
@@ -357,7 +362,8 @@ def lookup_default(prog, rep):
     w = tt.TotalWorld(prog, set(), key)
     m = ip.Machine(prog, w)
     try:
-        outs = m.run(m.start(key, [ip.Sym("cp", "u32")]))
+        arg_ty = "char" if key.endswith("::bidi_class") else "u32"
+        outs = m.run(m.start(key, [ip.Sym("cp", arg_ty)]))
     except ip.AnalysisError as e:
         rep.analysis_error("lookup", key, e, b.where())
         return
@@ -378,7 +384,11 @@ def lookup_default(prog, rep):
             return ("row",)
         return ("other", repr(v))
 
-    err = common.exact_lookup(outs, "cp", "u32", rows, "L", decode)
+    try:
+        err = common.exact_lookup(outs, "cp", arg_ty, rows, "L", decode)
+    except ip.AnalysisError as e:
+        rep.analysis_error("lookup", key, e, b.where())
+        return
     if err is None and w.findings:
         err = "; ".join(f["detail"] for f in w.findings[:2])
     rep.ob("lookup", "bidi_class_cp(cp) = the table's class of cp, L when not listed — for every code point (%d paths)" % len(outs), err is None, err or "", b.where(), key="lookup|default", sample=True)
@@ -396,7 +406,11 @@ def lookup_default(prog, rep):
     except ip.AnalysisError as e:
         rep.analysis_error("lookup", key2, e, b2.where())
         return
-    err2 = common.exact_lookup(outs2, "cp", "char", rows, "L", decode)
+    try:
+        err2 = common.exact_lookup(outs2, "cp", "char", rows, "L", decode)
+    except ip.AnalysisError as e:
+        rep.analysis_error("lookup", key2, e, b2.where())
+        return
     if err2 is None and w2.findings:
         err2 = "; ".join(f["detail"] for f in w2.findings[:2])
     rep.ob("lookup", "bidi_class(c) = the table's class of c, L when not listed — for every character (%d paths)" % len(outs2), err2 is None, err2 or "", b2.where(), key="lookup|char-entry", sample=True)
